@@ -4,6 +4,19 @@ import re, os
 p='/verif/DESIGN.md'
 s=open(p).read()
 m=open('/verif/seeded/MATRIX-quick.md').read().strip()
+# rows of the supplementary run (round 9 and the must-stay-green set again, with the final harness)
+sup='/verif/seeded/MATRIX-quick-r9final.md'
+sup_rows=[]; sup_green=[]; sup_base=''
+if os.path.exists(sup):
+    for l in open(sup).read().splitlines():
+        if l.startswith('| C'): sup_rows.append(l)
+        elif l.startswith('| green/'): sup_green.append(l)
+        elif l.startswith('| (unchanged'): sup_base=l
+    lines=m.splitlines()
+    # insert round-9 rows before the green rows of the main matrix
+    gi=next((i for i,l in enumerate(lines) if l.startswith('| green/')), len(lines))
+    lines=lines[:gi]+sup_rows+lines[gi:]
+    m="\n".join(lines)
 rows=[l for l in m.splitlines() if l.startswith('| C')]
 caught_own=0; total=0; missed=[]
 for l in rows:
@@ -18,6 +31,9 @@ summary=(f"{total} seeded changes, {caught_own} caught by at least one check in 
          + f"; {len(green)} must-stay-green changes, {len(green)-len(green_bad)} quiet on all five checks"
          + (f" (NOT quiet: {len(green_bad)})" if green_bad else "") + ".")
 block=summary+"\n\n"+m+"\n"
+if sup_green:
+    bad=[l for l in sup_green if 'FALSE ALARM' in l or 'harness error' in l]
+    block+=f"\nThe must-stay-green set and the unchanged tree were run once more with the final harness (after the round-9 additions): unchanged tree: {sup_base.strip('| ').replace(' | ', ', ')}; {len(sup_green)-len(bad)} of {len(sup_green)} green changes quiet on all five checks.\n"
 sp='/verif/seeded/SEEDS-quick.md'
 if os.path.exists(sp):
     block+="\nDetection by the check of the broken property under other seeds (quick tier):\n\n"+open(sp).read().strip()+"\n"
